@@ -479,6 +479,8 @@ def history(seed, n_ops=25, profile=None):
         return direct_recompute_history(seed)
     if profile == "expert":
         return expert_history(seed)
+    if profile == "perkey":
+        return perkey_history(seed)
     if isinstance(profile, str):
         profile = PROFILES[profile]
     rng = random.Random(seed)
@@ -688,6 +690,97 @@ def expert_history(seed):
                 L.append(f"set {x} {rng.randrange(10) if x < ndata else rng.randrange(5)}")
         L.append("stabilise")
         L += [f"read {o}" for o in range(nobs[0]) if live.get(o, True)]
+    return L
+
+
+def perkey_history(seed):
+    """C16, scripted family: incr_mapi_ / incr_mapi_cutoff on a BTreeMap or an OrdMap with a per-key function
+    that is a pure map of the value, a map2 with an outer variable, a bind on the value, a function ignoring its
+    input, or one returning a shared pre-existing node; edits of the input map (insert, remove, change), writes
+    to the other variables, unobserve / re-observe of the output."""
+    rng = random.Random(seed)
+    L = []
+    H = [0]
+
+    def node(line):
+        L.append(line)
+        H[0] += 1
+        return H[0] - 1
+    nobs = [0]
+
+    def observe(h):
+        L.append(f"observe {h}")
+        nobs[0] += 1
+        return nobs[0] - 1
+
+    def rmap(m=None):
+        if m is None or rng.random() < 0.15:
+            return {k: rng.randrange(10) for k in range(6) if rng.random() < 0.5}
+        m = dict(m)
+        for _ in range(rng.choice([1, 1, 2, 3])):
+            k = rng.randrange(6)
+            c = rng.random()
+            if c < 0.35 and k in m:
+                del m[k]
+            elif c < 0.7 and m:
+                m[rng.choice(sorted(m))] = rng.randrange(10)
+            else:
+                m[k] = rng.randrange(10)
+        return m
+
+    def lit(m):
+        return "{ " + " ".join(f"{k}:{m[k]}" for k in sorted(m)) + " }"
+    cur = rmap()
+    inp = node("varmap " + lit(cur))             # var 0
+    others = [node(f"var {rng.randrange(10)}") for _ in range(rng.choice([1, 2]))]   # vars 1..
+    shared = node(f"map 2 [] {rng.choice(others)}")
+    flavour = rng.choice(["pure", "map2", "bind", "ignore", "ignore", "shared", "chain"])
+    o = rng.choice(others)
+    if flavour == "pure":
+        f = f"map {rng.choice([2, 9, 8])} [] l1.0 ; ret l0.0"
+    elif flavour == "map2":
+        f = f"map 1 [] l1.0 o{o} ; ret l0.0"
+    elif flavour == "bind":
+        f = f"bind l1.0 {{ [] map 1 [] o{o} ; ret l0.0 | constlhs ; ret l0.0 | ret o{shared} }} ; ret l0.0"
+    elif flavour == "ignore":
+        f = rng.choice([f"map 6 [] o{o} ; ret l0.0", "const 5 ; ret l0.0", f"map 8 [] o{shared} ; ret l0.0"])
+    elif flavour == "shared":
+        f = f"ret o{rng.choice([shared, o])}"
+    else:
+        f = f"map 2 [] l1.0 ; map 1 [] l0.0 o{shared} ; ret l0.1"
+    cut = rng.choice(["-", "-", "-", "eq", "never", "fn:0"])
+    op = rng.choice(["permapi", "permapiom"])
+    out = node(f"{op} {inp} {cut} {{ [] {f} }}")
+    down = out
+    if rng.random() < 0.3:
+        down = node(f"map 0 [] {out}")
+    if rng.random() < 0.85:
+        o_main = observe(down)
+        live = True
+    else:
+        o_main, live = None, False
+    if rng.random() < 0.3:
+        observe(shared)
+    L.append("stabilise")
+    L += [f"read {x}" for x in range(nobs[0])]
+    dead = set()
+    for _ in range(rng.choice([3, 4, 5, 6, 7])):
+        r = rng.random()
+        if r < 0.12 and live:
+            L.append(f"dropobs {o_main}")
+            dead.add(o_main)
+            live = False
+        elif r < 0.35 and not live:
+            o_main = observe(down)
+            live = True
+        if rng.random() < 0.8:
+            cur = rmap(cur)
+            L.append(f"setmap 0 {lit(cur)}")
+        for i in range(len(others)):
+            if rng.random() < 0.35:
+                L.append(f"set {1 + i} {rng.randrange(10)}")
+        L.append("stabilise")
+        L += [f"read {x}" for x in range(nobs[0]) if x not in dead]
     return L
 
 
